@@ -508,7 +508,10 @@ def ff_family(w, pid, corrupt, what):
         t8, s8 = drive_all(w, gossip_specs(w, ok), mode="orders")
         # membership changes pending at the anchor: joiners that fast-sync
         t9, s9 = drive_all(w, gossip_specs(w, [("dynF", dict(traces=3 if q else 8, n=0, steps=330 if q else 500, arg="fastsync"))]), mode="dyn")
-        traces, sums = traces + t8 + t9, sums + s8 + s9
+        # resets inside the six-round activation window of a join, a validator of the
+        # old set staying quiet (its root must still be in every frame)
+        t10, s10 = drive_all(w, gossip_specs(w, [("ffW", dict(traces=9 if q else 30, n=4, steps=240, arg="window"))]), mode="ff")
+        traces, sums = traces + t8 + t9 + t10, sums + s8 + s9 + s10
     tvs = w.validate_many(traces, par=6)
     violations, known_hits, drift = judge(w, pid, tvs, known)
     if pid == "C13":
